@@ -33,6 +33,35 @@ type Server struct {
 	Failed  *Cmd // the command that was made to fail, once it happened
 	reqid   int32
 	Verbose bool
+	hmu     sync.Mutex
+	hold    *holdPlan
+}
+
+// holdPlan: the next data command with this name on this collection waits until released (a slow query)
+type holdPlan struct {
+	name, coll string
+	reached    chan struct{}
+	release    chan struct{}
+}
+
+// HoldNext arms a hold: the next command `name` on collection `coll` signals `reached` and then blocks until `release`
+// is called.  Only one hold at a time.
+func (s *Server) HoldNext(name, coll string) (reached <-chan struct{}, release func()) {
+	h := &holdPlan{name: name, coll: coll, reached: make(chan struct{}), release: make(chan struct{})}
+	s.hmu.Lock()
+	s.hold = h
+	s.hmu.Unlock()
+	var once sync.Once
+	return h.reached, func() {
+		once.Do(func() {
+			s.hmu.Lock()
+			if s.hold == h {
+				s.hold = nil
+			}
+			s.hmu.Unlock()
+			close(h.release)
+		})
+	}
 }
 
 func New() (*Server, error) {
@@ -108,6 +137,19 @@ func (s *Server) TakeFailed() *Cmd {
 	f := s.Failed
 	s.FailAt, s.Failed = 0, nil
 	return f
+}
+
+// CountAfter: how many commands `name` on collection `coll` were handled after command number n
+func (s *Server) CountAfter(n int, name, coll string) int {
+	s.mu.Lock()
+	defer s.mu.Unlock()
+	k := 0
+	for _, c := range s.Log {
+		if c.N > n && c.Name == name && c.Coll == coll {
+			k++
+		}
+	}
+	return k
 }
 
 func (s *Server) CmdCount() int { s.mu.Lock(); defer s.mu.Unlock(); return s.n }
@@ -331,6 +373,15 @@ func (s *Server) handle(cmd bson.D) bson.D {
 	db, _ := dbv.(string)
 	collName, _ := cmd[0].Value.(string)
 	ns := db + "." + collName
+	s.hmu.Lock()
+	if h := s.hold; h != nil && h.name == name && h.coll == collName {
+		s.hold = nil
+		s.hmu.Unlock()
+		close(h.reached)
+		<-h.release
+	} else {
+		s.hmu.Unlock()
+	}
 	s.mu.Lock()
 	defer s.mu.Unlock()
 	s.n++
